@@ -274,7 +274,10 @@ prop("C08", "conccheck",
      level_note=SEMI_NOTE)
 
 prop("C11", "nitrocheck",
-     [dict(name="TestC11", quick=3, thorough=6, thorough_shards=16)],
+     [dict(name="TestC11", quick=1, thorough=4, thorough_shards=16),
+      dict(name="TestC11Multi", quick=1500, thorough=30000, thorough_shards=8),
+      dict(name="TestC11KnownFinding", quick=1, thorough=1, thorough_shards=1),
+      dict(name="FuzzC11", fuzz=180)],
      level="fault_enumeration",
      rule="Each case generates a database (0-20 items quick, up to 150 thorough; key styles: sequential ASCII, pseudo-random hex, zero-led binary that looks like length "
           "prefixes; bytes/KV comparator; delta interleaving on with real delta content produced by deletes+collection during the backup, or off), stores it once, and then "
